@@ -7,7 +7,7 @@ level), over all finite hierarchies built class by class with any number of
 classes and bases (`Built H tbl`), over all model states and attribute names
 (lookup level).  Helper lemmas are in Proofs.lean.
 -/
-import GPy.C16.Proofs
+import GPy.C16.Hooks
 namespace GPy.C16
 
 /-! ### `pmerge` (py/type.go) is the C3 merge -/
@@ -180,6 +180,126 @@ theorem isinstance_iff_ancestor (s : State) (hB : Built s.H s.T) (i : Nat)
     (hi : s.typeOf (.inst i) < s.classes.length) (c : Nat) :
     isInstance s i c = true ↔ Anc (basesOf s.H) (s.typeOf (.inst i)) c := isInstance_iff hB i hi c
 
+/-! ### round 2: `Shape`, `NoHooks` and `Built` are invariants – the lookup theorems hold in EVERY reachable state -/
+
+/-- a class statement keeps the `Shape` hypothesis -/
+theorem typeNew_preserves_shape {s s' : State} {w : List Nat} {d : Dict} (hs : Shape s)
+    (hb : ∀ b ∈ effBases w, b < s.classes.length) (h : typeNew s w d = .ok s') : Shape s' := shape_typeNew hs hb h
+
+/-- a class statement whose body defines no hook keeps the `NoHooks` hypothesis -/
+theorem typeNew_preserves_noHooks {s s' : State} {w : List Nat} {d : Dict} (hn : NoHooks s) (hd : DictNoHooks d)
+    (hb : ∀ b ∈ effBases w, b < s.classes.length) (h : typeNew s w d = .ok s') : NoHooks s' := noHooks_typeNew hn hd hb h
+
+/-- `K()` keeps both hypotheses, and (without hooks) always succeeds -/
+theorem newInstance_preserves {s s' : State} {c : Nat} (hs : Shape s) (hn : NoHooks s) (hc : c < s.classes.length)
+    (h : newInstance s c = .ok s') : Shape s' ∧ NoHooks s' := by
+  have := newInstance_ok hn h
+  subst this
+  exact ⟨shape_addInst hs hc, noHooks_addInst hn c⟩
+
+theorem newInstance_total {s : State} (hn : NoHooks s) (c : Nat) : ∃ s', newInstance s c = .ok s' :=
+  ⟨_, newInstance_noHooks hn c⟩
+
+/-- every state reached from the interpreter's start by class statements, instantiations, attribute writes
+and deletes satisfies every hypothesis of the lookup theorems, and its stored MROs are the C3 table of its hierarchy -/
+theorem reachable_invariants {s : State} (h : Reachable s) : Shape s ∧ NoHooks s ∧ Built s.H s.T ∧ BaseHead s :=
+  reachable_inv h
+
+/-- **attribute reads in every reachable state** (no hypothesis on the state other than reachability):
+the object's own attribute first, otherwise the first definition along the stored MRO of its class, bound per kind -/
+theorem reachable_lookup_spec {s : State} (h : Reachable s) (r : Ref) (hv : Valid s r) (key : String)
+    (hkey : key ∉ goSpecial) : Agrees (getAttrString s r key) (specRead (absState s) r key) :=
+  read_agrees (rel_absState s) (reachable_inv h).2.1 (reachable_inv h).1 r key hv hkey
+
+/-- the Python-level state whose linearisations are those of the table `tbl` -/
+def c3State (s : State) (tbl : List (List Nat)) : SState :=
+  { mro := linOf tbl, clsOf := fun i => s.typeOf (.inst i), ns := fun r n => (s.dictOf r).get n }
+
+/-- **lookup follows the instance, then C3** – `lookup_spec` packaged with `mro_eq_c3`: in every reachable state
+the hierarchy has exactly one table of C3 linearisations (`Built`, the specification's class-by-class
+acceptance), and every attribute read agrees with Python's rule evaluated over THAT table. -/
+theorem reachable_lookup_c3 {s : State} (h : Reachable s) :
+    ∃ tbl, Built s.H tbl ∧ (∀ tbl', Built s.H tbl' → tbl' = tbl) ∧
+      ∀ (r : Ref) (key : String), Valid s r → key ∉ goSpecial →
+        Agrees (getAttrString s r key) (specRead (c3State s tbl) r key) := by
+  obtain ⟨hs, hn, hB, _⟩ := reachable_inv h
+  refine ⟨s.T, hB, fun tbl' h' => built_unique h' hB, fun r key hv hkey => ?_⟩
+  have : c3State s s.T = absState s := by
+    unfold c3State absState
+    congr 1
+    funext c; exact (cmro_eq_linOf s c).symm
+  rw [this]
+  exact read_agrees (rel_absState s) hn hs r key hv hkey
+
+/-- `write_local` in every reachable state -/
+theorem reachable_write_local {s : State} (h : Reachable s) (ops : List AOp) (hops : ∀ op ∈ ops, OpOK s op) :
+    runModel s ops = some (runSpec (absState s) ops) :=
+  write_local ops s (reachable_inv h).2.1 (reachable_inv h).1 hops
+
+/-- `isinstance` in every reachable state -/
+theorem reachable_isinstance_iff {s : State} (h : Reachable s) (i : Nat) (hi : i < s.insts.length) (c : Nat) :
+    isInstance s i c = true ↔ Anc (basesOf s.H) (s.typeOf (.inst i)) c :=
+  isInstance_iff (reachable_inv h).2.2.1 i ((reachable_inv h).1.instCls i hi) c
+
+/-- the diamond `K2; K3(K2); K4(K2); K5(K3, K4)` as the model builds it -/
+def diamondState : State :=
+  { classes := State.init.classes ++ [newClass [] [2, 0] [], newClass [2] [3, 2, 0] [], newClass [2] [4, 2, 0] [],
+      newClass [3, 4] [5, 3, 4, 2, 0] []], insts := [] }
+
+theorem diamond_reachable : Reachable diamondState := by
+  have nh : DictNoHooks [] := fun _ _ => rfl
+  have e2 : typeNew State.init [] [] = .ok (State.init.addClass (newClass [] [2, 0] [])) := by
+    rw [mro_eq_c3 _ _ _ (by decide)]
+    have : c3Step State.init.T State.init.T.length [] = some [2, 0] := by
+      simp [c3Step, effBases, hasDup, State.init, State.T, c3merge_eq, pick, goodHead, strike]
+    rw [this]; rfl
+  have r2 := Reachable.cls [] [] Reachable.init (by decide) nh e2
+  have e3 : typeNew (State.init.addClass (newClass [] [2, 0] [])) [2] []
+      = .ok ((State.init.addClass (newClass [] [2, 0] [])).addClass (newClass [2] [3, 2, 0] [])) := by
+    rw [mro_eq_c3 _ _ _ (by decide)]
+    have : c3Step (State.init.addClass (newClass [] [2, 0] [])).T (State.init.addClass (newClass [] [2, 0] [])).T.length [2]
+        = some [3, 2, 0] := by
+      simp [c3Step, effBases, hasDup, State.init, State.addClass, newClass, State.T, c3merge_eq, pick, goodHead, strike]
+    rw [this]; rfl
+  have r3 := Reachable.cls [2] [] r2 (by decide) nh e3
+  have e4 : typeNew ((State.init.addClass (newClass [] [2, 0] [])).addClass (newClass [2] [3, 2, 0] [])) [2] []
+      = .ok (((State.init.addClass (newClass [] [2, 0] [])).addClass (newClass [2] [3, 2, 0] [])).addClass (newClass [2] [4, 2, 0] [])) := by
+    rw [mro_eq_c3 _ _ _ (by decide)]
+    have : c3Step ((State.init.addClass (newClass [] [2, 0] [])).addClass (newClass [2] [3, 2, 0] [])).T
+        ((State.init.addClass (newClass [] [2, 0] [])).addClass (newClass [2] [3, 2, 0] [])).T.length [2] = some [4, 2, 0] := by
+      simp [c3Step, effBases, hasDup, State.init, State.addClass, newClass, State.T, c3merge_eq, pick, goodHead, strike]
+    rw [this]; rfl
+  have r4 := Reachable.cls [2] [] r3 (by decide) nh e4
+  have e5 : typeNew (((State.init.addClass (newClass [] [2, 0] [])).addClass (newClass [2] [3, 2, 0] [])).addClass (newClass [2] [4, 2, 0] [])) [3, 4] []
+      = .ok diamondState := by
+    rw [mro_eq_c3 _ _ _ (by decide)]
+    have : c3Step (((State.init.addClass (newClass [] [2, 0] [])).addClass (newClass [2] [3, 2, 0] [])).addClass (newClass [2] [4, 2, 0] [])).T
+        (((State.init.addClass (newClass [] [2, 0] [])).addClass (newClass [2] [3, 2, 0] [])).addClass (newClass [2] [4, 2, 0] [])).T.length [3, 4]
+        = some [5, 3, 4, 2, 0] := by
+      simp [c3Step, effBases, hasDup, State.init, State.addClass, newClass, State.T, c3merge_eq, pick, goodHead, strike]
+    rw [this]; rfl
+  exact Reachable.cls [3, 4] [] r4 (by decide) nh e5
+
+/-! ### the `Base`-chain branch of `IsSubtype` -/
+
+/-- on a class object of a reachable state `IsSubtype` never walks the `Base` chain: it is the
+membership test on the stored MRO (the chain is taken only for receivers without MRO, i.e. instances
+handed to `IsSubtype` through the Go API) -/
+theorem isSubtype_never_baseChain {s : State} (h : Reachable s) {a : Nat} (ha : a < s.classes.length) (b : Nat) :
+    isSubtype s a b = (s.cmro a).contains b := isSubtype_eq_mro (reachable_inv h).1 ha b
+
+/-- where the `Base` chain is walked it reports ancestors only (sound for every fuel) … -/
+theorem baseChain_sound {s : State} (h : Reachable s) (fuel a b : Nat) (ha : a < s.classes.length)
+    (hc : baseChain s fuel a b = true) : Anc (basesOf s.H) a b :=
+  baseChain_anc (reachable_inv h).2.2.1 (reachable_inv h).2.2.2 b fuel a ha hc
+
+/-- … but not all of them: it follows first bases only.  In the diamond `K5(K3, K4)` the second base `K4`
+is an ancestor that the chain misses (`isSubtype`, which reads the MRO, finds it). -/
+theorem baseChain_incomplete_witness :
+    ∃ s, Reachable s ∧ baseChain s s.classes.length 5 4 = false ∧ isSubtype s 5 4 = true ∧ Anc (basesOf s.H) 5 4 := by
+  have hr : Reachable diamondState := diamond_reachable
+  exact ⟨diamondState, hr, by decide, by decide, Anc.step (b := 4) (by decide) (Anc.refl 4)⟩
+
 /-! non-vacuity: the state after `class K2: a = f; i0 = K2()` satisfies every hypothesis above -/
 
 def demoState : State :=
@@ -228,5 +348,121 @@ theorem demo_history :
     runModel demoState [.get (.inst 0) "a", .set (.inst 0) "a" (.plain "w"), .get (.inst 0) "a", .get (.cls 2) "a"]
       = some [.read (.ok (.call "K2.a" (some (.inst 0)))), .done, .read (.ok (.value "w")), .read (.ok (.call "K2.a" none))] := by
   decide
+
+/-- the demo state is reachable: `class K2: a = f` then `K2()` -/
+theorem demo_reachable : Reachable demoState := by
+  have h1 : Reachable { demoState with insts := [] } :=
+    Reachable.cls [] [("a", .func "K2.a")] Reachable.init (by decide)
+      (by intro h hh; simp only [hookNames, List.mem_cons, List.not_mem_nil, or_false] at hh
+          rcases hh with rfl | rfl | rfl | rfl | rfl <;> decide) demo_from_code
+  exact Reachable.inst 2 h1 (by decide) (by decide) (newInstance_noHooks (reachable_inv h1).2.1 2)
+
+/-! ### round 2 (model widening): user hooks are found on the TYPE of the object, along its MRO -/
+
+/-- **attribute reads with `__getattr__`** in every state reachable when class bodies may define the hooks
+`__getattr__`/`__setattr__`/`__init__`: ordinary lookup first (instance, then C3 MRO, bound per kind); only when
+that fails the `__getattr__` found along the MRO of the INSTANCE'S CLASS is called with `(instance, name)` – also when
+it is inherited; a read on a CLASS object never reaches the hooks its body defines (holds after the round-2 `fix:`). -/
+theorem reachableH_lookup_spec {s : State} (h : ReachableH s) (r : Ref) (hv : Valid s r) (key : String)
+    (hkey : key ∉ goSpecial) : AgreesH (getAttrString s r key) (specReadH (absState s) r key) :=
+  readH_agrees (rel_absState s) (reachableH_inv h).shape (reachableH_inv h).dicts r key hv hkey
+
+/-- **writes with `__setattr__`**: `obj.k = v` on an instance whose class (or a base along its MRO) defines
+`__setattr__` calls that function with `(instance, k, v)` INSTEAD of storing; on a class object, and without a hook,
+the write goes to the object's own namespace only. -/
+theorem setattr_hook_spec {s : State} (h : ReachableH s) (r : Ref) (hv : Valid s r) (k : String) (v : Val) :
+    StepAgrees (setAttrString s r k v) (specWriteH (absState s) s.log r k v) :=
+  setAttrH_spec (rel_absState s) (reachableH_inv h).shape (reachableH_inv h).dicts r hv k v
+
+/-- **instantiation with `__init__`**: `K()` makes a fresh instance with an empty namespace and runs the
+`__init__` found along the MRO of `K` (own or inherited) on it; its write goes through `__setattr__` like any other. -/
+theorem init_hook_spec {s : State} (h : ReachableH s) (c : Nat) (hc : c < s.classes.length) :
+    StepAgrees (newInstance s c) (specInit (absState (s.addInst { cls := c, dict := [] })) s.log s.insts.length) :=
+  newInstanceH_spec (reachableH_inv h).shape (reachableH_inv h).dicts c hc (rel_absState _)
+
+/-- the invariants (incl. the C3 table) hold in every state reachable with hooks; the hook-free reachable states are among them -/
+theorem reachableH_invariants {s : State} (h : ReachableH s) : Shape s ∧ ClsDictsOK s ∧ Built s.H s.T :=
+  ⟨(reachableH_inv h).shape, (reachableH_inv h).dicts, (reachableH_inv h).built⟩
+
+/-- `IsSubtype` called through the Go API with an INSTANCE as receiver (no MRO: the `Base` chain is walked,
+`Alloc` having set the instance's `Base` to its class) reports only ancestors of the instance's class -/
+theorem isSubtypeInst_sound {s : State} (h : ReachableH s) {i : Nat} (hi : i < s.insts.length) (b : Nat)
+    (hc : isSubtypeInst s i b = true) : Anc (basesOf s.H) (s.typeOf (.inst i)) b :=
+  baseChain_anc (reachableH_inv h).built (reachableH_inv h).baseHead b _ _ ((reachableH_inv h).shape.instCls i hi) hc
+
+theorem reachable_sub_reachableH {s : State} (h : Reachable s) : ReachableH s := reachable_reachableH h
+
+/-- without hooks the hook-aware specification is the plain one -/
+theorem specReadH_noHooks (S : SState) (r : Ref) (name : String) (hn : specHook S r "__getattr__" = none) :
+    specReadH S r name = specRead S r name := by
+  unfold specReadH
+  rw [hn]
+  cases specRead S r name <;> rfl
+
+/-! ### isinstance with a tuple -/
+
+/-- `isinstance(i, (a1, …, an))`: left to right, True at the first class that is an ancestor-or-self of the
+instance's class, TypeError at the first element reached that is not a class, False otherwise
+(holds after the round-2 `fix:` commits: errors were swallowed, instances were accepted as classes). -/
+theorem isinstance_tuple_spec {s : State} (h : ReachableH s) {i : Nat} (hi : i < s.insts.length) (args : List Ref) :
+    AgreesB (isInstanceT s i args) (specIsInstanceT (absState s) i args) :=
+  isInstanceT_agrees (reachableH_inv h).shape hi args
+
+/-- for a tuple of classes: True iff SOME element is an ancestor-or-self of the instance's class -/
+theorem isinstance_tuple_iff {s : State} (h : ReachableH s) {i : Nat} (hi : i < s.insts.length) (cs : List Nat) :
+    isInstanceT s i (cs.map Ref.cls) = .ok true ↔ ∃ c ∈ cs, Anc (basesOf s.H) (s.typeOf (.inst i)) c := by
+  have hB := (reachableH_inv h).built
+  have hc := (reachableH_inv h).shape.instCls i hi
+  induction cs with
+  | nil => simp [isInstanceT]
+  | cons c rest ih =>
+    have hiff := isInstance_iff hB i hc c
+    simp only [List.map_cons, isInstanceT, isInstance1, List.mem_cons, exists_eq_or_imp]
+    cases hb : isInstance s i c with
+    | true => simp [hiff.mp hb]
+    | false =>
+      have : ¬ Anc (basesOf s.H) (s.typeOf (.inst i)) c := fun ha => by rw [hiff.mpr ha] at hb; cases hb
+      simp [this, ih]
+
+/-! ### non-vacuity for the hooks: `class K2: a = 'v'; def __getattr__…; def __setattr__…; def __init__…` and `class K3(K2): pass` -/
+
+def hookState0 : State :=
+  { classes := State.init.classes ++ [newClass [] [2, 0] [("__init__", .func "K2.__init__"), ("__setattr__", .func "K2.__setattr__"),
+      ("__getattr__", .func "K2.__getattr__")], newClass [2] [3, 2, 0] []], insts := [] }
+
+theorem hookState0_reachable : ReachableH hookState0 := by
+  have ok : DictHooksOK [("__init__", .func "K2.__init__"), ("__setattr__", .func "K2.__setattr__"), ("__getattr__", .func "K2.__getattr__")] := by
+    refine ⟨fun h hh => ?_, fun h hh v hv => ?_⟩
+    · simp only [badHooks, List.mem_cons, List.not_mem_nil, or_false] at hh
+      rcases hh with rfl | rfl <;> decide
+    · simp only [userHooks, List.mem_cons, List.not_mem_nil, or_false] at hh
+      rcases hh with rfl | rfl | rfl <;> (simp [Dict.get, List.lookup] at hv; subst hv; trivial)
+  have e2 : typeNew State.init [] [("__init__", .func "K2.__init__"), ("__setattr__", .func "K2.__setattr__"), ("__getattr__", .func "K2.__getattr__")]
+      = .ok (State.init.addClass (newClass [] [2, 0] [("__init__", .func "K2.__init__"), ("__setattr__", .func "K2.__setattr__"), ("__getattr__", .func "K2.__getattr__")])) := by
+    rw [mro_eq_c3 _ _ _ (by decide)]
+    have : c3Step State.init.T State.init.T.length [] = some [2, 0] := by
+      simp [c3Step, effBases, hasDup, State.init, State.T, c3merge_eq, pick, goodHead, strike]
+    rw [this]; rfl
+  have r2 := ReachableH.cls [] _ ReachableH.init (by decide) ok e2
+  have e3 : typeNew (State.init.addClass (newClass [] [2, 0] [("__init__", .func "K2.__init__"), ("__setattr__", .func "K2.__setattr__"), ("__getattr__", .func "K2.__getattr__")])) [2] []
+      = .ok hookState0 := by
+    rw [mro_eq_c3 _ _ _ (by decide)]
+    have : c3Step (State.init.addClass (newClass [] [2, 0] [("__init__", .func "K2.__init__"), ("__setattr__", .func "K2.__setattr__"), ("__getattr__", .func "K2.__getattr__")])).T
+        (State.init.addClass (newClass [] [2, 0] [("__init__", .func "K2.__init__"), ("__setattr__", .func "K2.__setattr__"), ("__getattr__", .func "K2.__getattr__")])).T.length [2] = some [3, 2, 0] := by
+      simp [c3Step, effBases, hasDup, State.init, State.addClass, newClass, State.T, c3merge_eq, pick, goodHead, strike]
+    rw [this]; rfl
+  exact ReachableH.cls [2] [] r2 (by decide) dictHooksOK_nil e3
+
+/-- `K3()` runs the INHERITED `__init__`, whose write is intercepted by the INHERITED `__setattr__`; reading a
+missing name on the instance reaches the inherited `__getattr__`; reading it on the class `K3` is an AttributeError -/
+theorem hook_inherited_witness :
+    ∃ s', newInstance hookState0 3 = .ok s' ∧
+      s'.log = [⟨"K2.__setattr__", .inst 0, "a", some (.plain "K2.__init__")⟩] ∧
+      (∃ v, getAttrString s' (.inst 0) "z" = .ok v ∧ v = .hooked "K2.__getattr__" (.inst 0) "z") ∧
+      (∃ e, getAttrString s' (.cls 3) "z" = .error e ∧ e = .attr) := by
+  refine ⟨{ hookState0 with insts := [{ cls := 3, dict := [] }], log := [⟨"K2.__setattr__", .inst 0, "a", some (.plain "K2.__init__")⟩] }, ?_, rfl, ?_, ?_⟩
+  · rfl
+  · exact ⟨_, rfl, rfl⟩
+  · exact ⟨_, rfl, rfl⟩
 
 end GPy.C16
